@@ -53,7 +53,9 @@ def exec_PROG(t):
     pool = []
     out = []
     def emit(z):
-        if isinstance(z, Fxp):
+        # the quantifier is over core-domain formats (n_word <= 52): wider results (e.g. a 28x28-bit product) have
+        # limits that are not exact doubles, so they are neither judged nor kept in the pool
+        if isinstance(z, Fxp) and z.n_word <= 52:
             w = wf_tokens(z)
             if w is not None:
                 out.extend(w)
